@@ -27,6 +27,7 @@ import (
 	"strconv"
 	"strings"
 	"sync"
+	"sync/atomic"
 	"testing"
 	"time"
 
@@ -243,6 +244,264 @@ func c05Run(ops string, timeout time.Duration) string {
 }
 
 
+// ---------------------------------------------------------------- failing downstream writes
+//
+//   carrierlayer frun <ops>   ops: n | r<i>:x<hex> | c<i> | w:x<cid>:x<hex> | F<i>:<n> | z, with @-expectations
+//
+// turbotunnelMode itself (what ServeHTTP calls once it has read the token) over connections made by the driver, so
+// that the underlying Write can be made to FAIL at a chosen byte: F<i>:<n> arms carrier i: of the bytes written to it
+// from now on the first n are taken, then the Write that goes beyond them reports an error (and every later one).
+// The first r-op of a carrier must carry the token followed by the ClientID (the driver takes the token off, as
+// ServeHTTP does - the token logic is exercised by run/trun/move); c<i> = the peer closes (EOF upstream).
+//   -> up=... k<i>=<open|closed>:x<every byte the server wrote on the connection> (closed = turbotunnelMode returned)
+// All carriers of a case share one QueuePacketConn; the cases of a run share the process (and whatever
+// package-level state the carrier code may keep: pools, caches): a run with GOMAXPROCS=1 and the cases one after
+// the other makes the reuse of such state as likely as it can be.
+
+type c05fconn struct {
+	mu      sync.Mutex
+	in      chan []byte
+	rbuf    []byte
+	gone    chan struct{}
+	once    sync.Once
+	wrote   []byte
+	budget  int // < 0: writes succeed; otherwise the bytes that may still be written before Write fails
+	failed  bool
+	started bool // token taken off
+}
+
+var errC05Write = fmt.Errorf("write: broken pipe (verif)")
+
+func (c *c05fconn) Read(p []byte) (int, error) {
+	for {
+		c.mu.Lock()
+		if len(c.rbuf) > 0 {
+			n := copy(p, c.rbuf)
+			c.rbuf = c.rbuf[n:]
+			c.mu.Unlock()
+			return n, nil
+		}
+		c.mu.Unlock()
+		select {
+		case b, ok := <-c.in:
+			if !ok {
+				return 0, io.EOF
+			}
+			c.mu.Lock()
+			c.rbuf = append(c.rbuf, b...)
+			c.mu.Unlock()
+		case <-c.gone:
+			return 0, io.ErrClosedPipe
+		}
+	}
+}
+
+func (c *c05fconn) Write(p []byte) (int, error) {
+	c.mu.Lock()
+	defer c.mu.Unlock()
+	select {
+	case <-c.gone:
+		return 0, io.ErrClosedPipe
+	default:
+	}
+	if c.failed {
+		return 0, errC05Write
+	}
+	if c.budget < 0 {
+		c.wrote = append(c.wrote, p...)
+		return len(p), nil
+	}
+	k := len(p)
+	if k > c.budget {
+		k = c.budget
+	}
+	c.wrote = append(c.wrote, p[:k]...)
+	c.budget -= k
+	if k < len(p) {
+		c.failed = true
+		return k, errC05Write
+	}
+	return k, nil
+}
+
+func (c *c05fconn) Close() error {
+	c.once.Do(func() { close(c.gone) })
+	return nil
+}
+func (c *c05fconn) LocalAddr() net.Addr                { return dummyAddrC05{} }
+func (c *c05fconn) RemoteAddr() net.Addr               { return dummyAddrC05{} }
+func (c *c05fconn) SetDeadline(t time.Time) error      { return nil }
+func (c *c05fconn) SetReadDeadline(t time.Time) error  { return nil }
+func (c *c05fconn) SetWriteDeadline(t time.Time) error { return nil }
+
+func c05FRun(ops string) string {
+	pconn := turbotunnel.NewQueuePacketConn(dummyAddrC05{}, time.Hour)
+	defer pconn.Close()
+	var carriers []*c05fconn
+	var returned []*int32
+	var upMu sync.Mutex
+	var up []string
+	go func() {
+		buf := make([]byte, 1<<16)
+		for {
+			n, addr, err := pconn.ReadFrom(buf)
+			if err != nil {
+				return
+			}
+			upMu.Lock()
+			up = append(up, "x"+addr.String()+":x"+hex.EncodeToString(buf[:n]))
+			upMu.Unlock()
+		}
+	}()
+	snapshot := func() string {
+		upMu.Lock()
+		s := strconv.Itoa(len(up))
+		upMu.Unlock()
+		for i, c := range carriers {
+			c.mu.Lock()
+			s += fmt.Sprintf("/%d:%d", len(c.wrote), atomic.LoadInt32(returned[i]))
+			c.mu.Unlock()
+		}
+		return s
+	}
+	settle := func(rounds int, max time.Duration) {
+		deadline := time.Now().Add(max)
+		last, same := snapshot(), 0
+		for same < rounds && time.Now().Before(deadline) {
+			time.Sleep(500 * time.Microsecond)
+			cur := snapshot()
+			if cur == last {
+				same++
+			} else {
+				last, same = cur, 0
+			}
+		}
+	}
+	waitFor := func(exps []string) {
+		deadline := time.Now().Add(8 * time.Second)
+		for time.Now().Before(deadline) {
+			ok := true
+			for _, e := range exps {
+				switch e[0] {
+				case 'u':
+					n, _ := strconv.Atoi(e[1:])
+					upMu.Lock()
+					if len(up) < n {
+						ok = false
+					}
+					upMu.Unlock()
+				case 'k':
+					i, _ := strconv.Atoi(e[1:])
+					if i < len(carriers) && atomic.LoadInt32(returned[i]) == 0 {
+						ok = false
+					}
+				case 'd':
+					f := strings.SplitN(e[1:], "=", 2)
+					i, _ := strconv.Atoi(f[0])
+					n, _ := strconv.Atoi(f[1])
+					if i < len(carriers) {
+						carriers[i].mu.Lock()
+						if len(carriers[i].wrote) < n {
+							ok = false
+						}
+						carriers[i].mu.Unlock()
+					}
+				}
+			}
+			if ok {
+				return
+			}
+			time.Sleep(200 * time.Microsecond)
+		}
+	}
+	var wbuf []byte
+	for _, opx := range strings.Split(ops, ",") {
+		parts := strings.Split(opx, "@")
+		op := parts[0]
+		switch {
+		case op == "n":
+			c := &c05fconn{in: make(chan []byte, 64), gone: make(chan struct{}), budget: -1}
+			flag := new(int32)
+			carriers = append(carriers, c)
+			returned = append(returned, flag)
+		case op[0] == 'r':
+			f := strings.Split(op[1:], ":")
+			i, _ := strconv.Atoi(f[0])
+			b := c05hex(f[1])
+			c := carriers[i]
+			if !c.started {
+				if len(b) < len(turbotunnel.Token) || string(b[:len(turbotunnel.Token)]) != string(turbotunnel.Token[:]) {
+					return "!badcase: the first bytes of a carrier must be the token"
+				}
+				b = b[len(turbotunnel.Token):]
+				c.started = true
+				flag := returned[i]
+				go func() {
+					turbotunnelMode(c, clientAddr("192.0.2.7"), pconn)
+					atomic.StoreInt32(flag, 1)
+				}()
+			}
+			if len(b) > 0 {
+				select {
+				case c.in <- b:
+				case <-c.gone:
+				}
+			}
+		case op[0] == 'c':
+			i, _ := strconv.Atoi(op[1:])
+			close(carriers[i].in)
+		case op[0] == 'F':
+			f := strings.Split(op[1:], ":")
+			i, _ := strconv.Atoi(f[0])
+			n, _ := strconv.Atoi(f[1])
+			carriers[i].mu.Lock()
+			carriers[i].budget = n
+			carriers[i].mu.Unlock()
+		case op[0] == 'w':
+			f := strings.Split(op, ":")
+			var cid turbotunnel.ClientID
+			copy(cid[:], c05hex(f[1]))
+			pkt := c05hex(f[2])
+			if cap(wbuf) < len(pkt) {
+				wbuf = make([]byte, len(pkt), 2*len(pkt)+16)
+			}
+			wbuf = wbuf[:len(pkt)]
+			copy(wbuf, pkt)
+			pconn.WriteTo(wbuf, cid)
+			for j := range wbuf {
+				wbuf[j] ^= 0xa5
+			}
+		case op == "z":
+		default:
+			continue
+		}
+		if len(parts) > 1 {
+			waitFor(parts[1:])
+		}
+		settle(3, 200*time.Millisecond)
+	}
+	settle(20, time.Second)
+	upMu.Lock()
+	out := []string{"up=" + func() string {
+		if len(up) == 0 {
+			return "-"
+		}
+		return strings.Join(up, ",")
+	}()}
+	upMu.Unlock()
+	for i, c := range carriers {
+		c.mu.Lock()
+		st := "open"
+		if atomic.LoadInt32(returned[i]) != 0 {
+			st = "closed"
+		}
+		out = append(out, fmt.Sprintf("k%d=%s:x%s", i, st, hex.EncodeToString(c.wrote)))
+		c.mu.Unlock()
+		c.Close()
+	}
+	return strings.Join(out, " ")
+}
+
 type dummyAddrC05 struct{}
 
 func (dummyAddrC05) Network() string { return "dummy" }
@@ -262,7 +521,11 @@ func TestVerifC05Driver(t *testing.T) {
 		lines = append(lines, sc.Text())
 	}
 	res := make([]string, len(lines))
-	sem := make(chan struct{}, 48)
+	par := 48
+	if os.Getenv("VERIF_C05_SERIAL") == "1" {
+		par = 1
+	}
+	sem := make(chan struct{}, par)
 	var wg sync.WaitGroup
 	for idx, line := range lines {
 		idx, line := idx, line
@@ -278,6 +541,8 @@ func TestVerifC05Driver(t *testing.T) {
 			}()
 			a := strings.Split(line, " ")
 			switch {
+			case len(a) == 3 && a[1] == "frun":
+				res[idx] = c05FRun(a[2])
 			case len(a) == 3 && a[1] == "run":
 				res[idx] = c05Run(a[2], time.Hour)
 			case len(a) == 4 && a[1] == "trun":
